@@ -11,6 +11,7 @@ import (
 	"github.com/bitcoin-sv/block-headers-service/domains"
 	"github.com/bitcoin-sv/block-headers-service/internal/chaincfg/chainhash"
 	"github.com/bitcoin-sv/block-headers-service/repository"
+	"github.com/jmoiron/sqlx"
 )
 
 func init() { register("C05", runC05) }
@@ -66,13 +67,16 @@ func addGuarded(s *Stack, src domains.BlockHeaderSource) (out string) {
 }
 
 // C05 case: history line with x=<mode>:<i>:<k>   mode = kill | ckill | cfault | sfault | fault | cont | ikill
-//   cfault: the k-th COMMIT since arming fails once (commit hook), the process continues (same model as fault)
-//   ikill: killed during the very first start, after the schema migrations and before genesis is inserted (i = k = 0)
-//   sfault: a SQLite trigger aborts statement kind k (0 demote / 1 promote / 2 insert) while header i is added
-//   kill/fault/cont count repository write calls; ckill counts committed SQLite transactions (commit hook)
+//
+//	cfault: the k-th COMMIT since arming fails once (commit hook), the process continues (same model as fault)
+//	ikill: killed during the very first start, after the schema migrations and before genesis is inserted (i = k = 0)
+//	sfault: a SQLite trigger aborts statement kind k (0 demote / 1 promote / 2 insert) while header i is added
+//	kill/fault/cont count repository write calls; ckill counts committed SQLite transactions (commit hook)
+//
 // obs: pre:<rows>|crash:<outcome>/<rows after restart>|redeliver:<o,o,..>/<rows>|clean:<rows>
-//   (cont: the fault at (i,k) is followed by ingestion of the remaining headers before the restart;
-//    crash:<o_i,o_i+1,...>/<rows after restart>)
+//
+//	(cont: the fault at (i,k) is followed by ingestion of the remaining headers before the restart;
+//	 crash:<o_i,o_i+1,...>/<rows after restart>)
 func runC05(c *Ctx) error {
 	var fr *faultRepo
 	opts := StackOpts{Dir: c.TmpDir("c05"), WrapHeaders: func(h repository.Headers) repository.Headers {
@@ -115,6 +119,13 @@ func runC05(c *Ctx) error {
 	}
 	cleanCache := map[string]string{}
 	nfresh := 0
+	nrestart := 0
+	var abandoned []*sqlx.DB
+	defer func() {
+		for _, d := range abandoned {
+			_ = d.Close()
+		}
+	}()
 	// returns ok=false when write k of sub i does not exist (nothing to crash)
 	doCase := func(h *History, mode string, i, k int, tag string) (bool, error) {
 		hh := &History{Forbidden: h.Forbidden, Subs: h.Subs, X: []string{fmt.Sprintf("%s:%d:%d", mode, i, k)}}
@@ -249,7 +260,19 @@ func runC05(c *Ctx) error {
 			}
 		}
 		// restart: close the database and run database.Init on the same file again
-		ns, err := s.Reopen()
+		var ns *Stack
+		nrestart++
+		if (mode == "kill" || mode == "ckill") && nrestart%9 == 0 && len(abandoned) < 200 {
+			// a killed process closes nothing: every ninth crash restarts while the old handle is still open
+			var oldDB *sqlx.DB
+			ns, oldDB, err = s.ReopenAbandoned()
+			if oldDB != nil {
+				abandoned = append(abandoned, oldDB)
+			}
+			c.Count("restart:old-handle-not-closed")
+		} else {
+			ns, err = s.Reopen()
+		}
 		if err != nil {
 			// the restart REFUSES the crash image (database.Init fails): that is an observable, not a harness error.
 			// The database file is abandoned; the run goes on with a fresh stack.
